@@ -374,6 +374,21 @@ def run(spec, ctx):
                 C["abs_bound_checks"] += 1
                 if outer_pos is not None and n_pulled > outer_pos + 1:
                     problems.append(f"nested query pulled {n_pulled} outer elements for result {k} whose outer element is at position {outer_pos}")
+                # the inner domain: while the first outer element is still being joined, only a prefix of the second
+                # variable's domain up to the result's inner element is needed
+                vy = spec["vars"][1]
+                inner_to_pos = {}
+                for p_, i in enumerate(vy["dom"]):
+                    inner_to_pos.setdefault(twin[i].name, p_ + 1)
+                inner_pos = inner_to_pos.get(results[k - 1][1])
+                y_pulled = sum(1 for e in full[:cut] if e[0] == "pull" and e[1] == "y")
+                first_outer = n_pulled <= 1
+                if first_outer and inner_pos is not None:
+                    C["inner_bound_checks"] += 1
+                    if y_pulled > inner_pos + 1:
+                        problems.append(f"join pulled {y_pulled} elements of the second domain for result {k}, which pairs the first "
+                                        f"outer element with the inner element at position {inner_pos}")
+                        unknown_seen = True
     # 4. history: a partially consumed evaluation is abandoned, then the same query object is evaluated again
     if fam in ("single", "nested2") and not problems and total > 0 and known_key is None:
         import random as _r
